@@ -358,6 +358,7 @@ type GhostMakeChan struct {
 	Ord   int
 	Tag   *SExpr
 	Class string
+	NC    bool // never closed
 }
 
 type ChanClass struct {
@@ -381,6 +382,7 @@ type FuncSpec struct {
 	HasMod    bool
 	MakeChans []GhostMakeChan
 	Pure      bool
+	Escape      []*Clause // channels that must offer a receive alternative at every blocking operation
 	TrustResult string // reason why objinv(result) is assumed for this function
 	Trusted   bool     // contract assumed at call sites but body not verified (must be listed)
 	Inline    bool     // force inlining even though contract exists
@@ -656,6 +658,16 @@ func (sp *Specs) readFile(path string) error {
 				cur.CtxAware.Expr = e
 				cur.CtxAware.Text = rest
 			}
+		case "escape":
+			// escape[labels] <chan expr>: every blocking channel operation has a receive alternative on that channel
+			if cur == nil {
+				return fail("escape outside func")
+			}
+			e, err := parseSpecExpr(rest)
+			if err != nil {
+				return fail("%v", err)
+			}
+			cur.Escape = append(cur.Escape, &Clause{Kind: "escape", Labels: labels, File: path, Line: l.n, Func: cur.Key, Expr: e, Text: rest})
 		case "modifies":
 			if cur == nil {
 				return fail("modifies outside func")
@@ -693,6 +705,12 @@ func (sp *Specs) readFile(path string) error {
 			}
 			n, _ := strconv.Atoi(f[0])
 			tagText := strings.TrimSpace(strings.SplitN(rest, " tag ", 2)[1])
+			nc := false
+			if strings.HasSuffix(tagText, " nc") {
+				// this channel is never closed by anyone (proved at every close site)
+				nc = true
+				tagText = strings.TrimSpace(strings.TrimSuffix(tagText, " nc"))
+			}
 			class := ""
 			if i := strings.Index(tagText, " class "); i >= 0 {
 				class = strings.TrimSpace(tagText[i+7:])
@@ -702,7 +720,7 @@ func (sp *Specs) readFile(path string) error {
 			if err != nil {
 				return fail("%v", err)
 			}
-			cur.MakeChans = append(cur.MakeChans, GhostMakeChan{n, e, class})
+			cur.MakeChans = append(cur.MakeChans, GhostMakeChan{n, e, class, nc})
 		case "lock":
 			// lock <Type.field> [teardown] guards a, b
 			f := strings.Fields(rest)
